@@ -37,7 +37,9 @@ IsEvent(e) == l <= Len(T) /\ E.ev = e /\ l' = l + 1 /\ UNCHANGED tid
 SeqMatchesW == E.prot => E.seq = wr[E.d].seq
 SeqMatchesR == E.prot => E.seq = rd[E.d].seq
 AcceptedMatchesLog == LET a == acc'[E.d][Len(acc'[E.d])] IN a.ct = E.ct /\ a.plen = E.plen
-ReadBounds == E.match /\ (E.max >= 0 => E.len <= E.max) /\ (E.len >= E.min \/ E.closed)
+\* fewer than `min` bytes only at a close, and then everything already received is returned (nothing is lost)
+ReadBounds == E.match /\ (E.max >= 0 => E.len <= E.max)
+              /\ (E.len >= E.min \/ (E.closed /\ (E.len = rbuf[E.d] \/ (E.max >= 0 /\ E.len = E.max))))
 Keep == UNCHANGED pvars
 
 TM  == IsEvent("M") /\ nextTok' = [nextTok EXCEPT ![E.d] = Tk(E.t, E.a, E.b)] /\ UNCHANGED allvars
